@@ -1364,11 +1364,13 @@ func (w *Writer) hlslTypeSize(handle ir.TypeHandle) uint32 {
 			if count == 0 {
 				return 0
 			}
+			// One recursive call: two made the walk exponential in the nesting depth
+			// whenever the stride is 0 (it wraps to 0 for deeply nested arrays).
+			lastElSize := w.hlslTypeSize(inner.Base)
 			stride := inner.Stride
 			if stride == 0 {
-				stride = w.hlslTypeSize(inner.Base)
+				stride = lastElSize
 			}
-			lastElSize := w.hlslTypeSize(inner.Base)
 			return (count-1)*stride + lastElSize
 		}
 		return w.hlslTypeSize(inner.Base)
